@@ -338,12 +338,12 @@ def decide_kernels(jobs, build, cap=60, workers=14, seed=0, validate_n=40, log=p
         with cf.ThreadPoolExecutor(max_workers=max(2, workers // 2)) as tp:
             solved = list(tp.map(work, items))
         # retry what stayed undecided once, alone-ish, with a 3x cap (DESIGN.md 3.5)
-        redo = [i for i, s in enumerate(solved) if s['verdict'] == 'undecided' and items[i][2]['expect'] == 'unsat']
+        redo = [i for i, s in enumerate(solved) if s['verdict'] == 'undecided' and items[i][2]['expect'] == 'unsat'][:int(os.environ.get('VERIF_MAX_RETRY', '8'))]
         if redo:
             def work2(i):
                 job, ex, q, want = items[i]
-                return solve_query(q, ex['getv'], 3 * job.get('cap', cap), quick_cap=0.0, want_model=want)
-            with cf.ThreadPoolExecutor(max_workers=max(1, workers // 5)) as tp:
+                return solve_query(q, ex['getv'], 2 * job.get('cap', cap), quick_cap=0.0, want_model=want)
+            with cf.ThreadPoolExecutor(max_workers=max(1, workers // 4)) as tp:
                 for i, s in zip(redo, tp.map(work2, redo)):
                     s['retried'] = True; s['t'] += solved[i]['t']; solved[i] = s
         by_kernel = {}
